@@ -357,6 +357,8 @@ def run(fdef: ast.FunctionDef, tree: ast.Module, spec: dict, info: dict = None) 
     """-> an equivalent FunctionDef inside the translator's subset where possible (see the module docstring);
     the input object itself when no rewrite applies.  Never raises: a rewrite that cannot be justified is
     skipped and the translator then reports the construct as unsupported."""
+    if tree is None:
+        return fdef
     try:
         mod = _Module(tree)
         scope = _locals_of(fdef)
